@@ -147,6 +147,8 @@ def bounded(tier, seed):
     for typ, siz, code in types:
         for cnt in lens:
             for budget in budgets:
+                if len(violations) >= 5:
+                    break
                 lx = sim.fresh({'T': (typ, cnt)}, max_bytes=budget)
                 vals = [((i * 7 + 3) % 100) for i in range(cnt)]
                 sim.write_tag(lx, 'T', 0, cnt, code, vals)
